@@ -509,6 +509,13 @@ func genC08(seed uint64, idx int) *Plan {
 		h.NoKeys = false
 		return &Plan{Kind: "hostile", Seed: seed, Hostile: h}
 	}
+	if idx%25 == 19 && !b.NoECH && !b.Grease {
+		// a first hello that names a held config and suite but carries no encapsulated key
+		h.Base.Mutations = []Mutation{{Kind: "ech-empty-enc"}}
+		h.Base.Expect = "abort"
+		h.NoKeys = false
+		return &Plan{Kind: "hostile", Seed: seed, Hostile: h}
+	}
 	if idx%25 == 13 && !b.NoECH && !b.Grease {
 		// accepted hello, HelloRetryRequest, then a retried hello that dropped supported_versions
 		h.NoKeys, h.BackFirst = false, true
